@@ -317,7 +317,11 @@ class Check:
             self.samples.append(s)
 
     def fail(self, kind, case, what, impl=None, model=None, extra=None):
-        self.failures.append(dict(kind=kind, case=case, what=what, impl=impl, model=model, extra=extra or {}))
+        """record a concrete failing input; at most 5 per kind are kept in detail, all are counted"""
+        self.fail_counts = getattr(self, "fail_counts", {})
+        self.fail_counts[kind] = self.fail_counts.get(kind, 0) + 1
+        if self.fail_counts[kind] <= 5:
+            self.failures.append(dict(kind=kind, case=case, what=what, impl=impl, model=model, extra=extra or {}))
 
     def tie_broken(self, what, case=None, impl=None, model=None):
         self.broken.append("correspondence: " + what + (" case=%s impl=%s model=%s" % (case, impl, model) if case is not None else ""))
@@ -376,7 +380,7 @@ class Check:
                 obligation_list=[dict(name=o[0], ok=o[1], detail=o[2]) for o in self.obligations],
                 evaluations=self.evaluations, distinct_nontrivial=len(self.distinct),
                 rule=self.rule, samples=self.samples, input_distribution=self.dist,
-                known_findings_seen=sorted(seen_known), notes=self.notes, **self.extra),
+                known_findings_seen=sorted(seen_known), failing_by_kind=getattr(self, "fail_counts", {}), notes=self.notes, **self.extra),
             assumptions=self.assumptions, wall_s=round(time.time() - self.t0, 2),
             violations=len(fresh) + (1 if (self.broken and not fresh) else 0))
         json.dump(ev, open(os.path.join(ROOT, "evidence", self.pid + ".json"), "w"), indent=1, default=str)
